@@ -170,6 +170,12 @@ let handle (s : sexp) : string = match s with
           else check_trig_acc (bool_of usesin) c (q_of s) (q_of tau) cells (q_of eps))
   | L [A "invacc"; c; s; kappa; thmax; cells; tol] ->
       sb (check_inv_acc_scaled (list_of q_of c) (q_of s) (q_of kappa) (q_of thmax) (list_of (pair_of q_of) cells) (q_of tol))
+  | L [A "infub"; dmin; coefs; s; cells; m2] ->
+      let f = { lp_dmin = z_of dmin; lp_coefs = list_of q_of coefs; lp_isz = false } in
+      sb (check_infnorm_ub f (list_of q_of s) (list_of (pair_of q_of) cells) (q_of m2))
+  | L [A "inflb"; dmin; coefs; s; theta; m2] ->
+      let f = { lp_dmin = z_of dmin; lp_coefs = list_of q_of coefs; lp_isz = false } in
+      sb (check_infnorm_lb f (list_of q_of s) (q_of theta) (q_of m2))
   | L [A "scale"] -> sz scaleZ
   | _ -> failwith "unknown command"
 
